@@ -487,6 +487,8 @@ namespace adept {
       }
 
       MinimizerStatus ls_status; // line-search outcome
+      // Has a variable been moved onto its bound after the line search?
+      bool x_placed_on_bound = false;
       if (i_nearest_bound >= 0) {
 	// Perform line search, storing new state vector in x
 	ls_status = line_search(optimizable, x, direction,
@@ -500,7 +502,7 @@ namespace adept {
 	  Real x_bound = i_bound_type > 0 ? max_x(i_nearest_bound) : min_x(i_nearest_bound);
 	  if (x(i_nearest_bound) != x_bound) {
 	    x(i_nearest_bound) = x_bound;
-	    state_up_to_date = -1;
+	    x_placed_on_bound = true;
 	  }
 	  // Restart the L-BFGS storage
 	  iteration_last_restart = n_iterations_+1;
@@ -534,12 +536,20 @@ namespace adept {
 	    Real x_bound = i_type > 0 ? max_x(ix) : min_x(ix);
 	    if (x(ix) != x_bound) {
 	      x(ix) = x_bound;
-	      state_up_to_date = -1;
+	      x_placed_on_bound = true;
 	    }
 	    bound_status(ix) = i_type;
 	    iteration_last_restart = n_iterations_+1;
 	  }
 	}
+      }
+
+      if (x_placed_on_bound) {
+	// The state vector is no longer the one at which the line
+	// search evaluated the cost function
+	cost_function_ = optimizable.calc_cost_function(x);
+	++n_samples_;
+	state_up_to_date = 0;
       }
 
       if (ls_status == MINIMIZER_STATUS_SUCCESS) {
